@@ -25,6 +25,22 @@ def parse_back(cls, composed):
         raise RoundTripError('composed bytes are not accepted: %s' % type(e).__name__)
 
 
+PARSE_BACK = True     # switched off where the command is used as a generator of bytes for another oracle
+
+
+def rt_hex(obj, cls=None):
+    """hex of compose(obj), after checking that the bytes are accepted back by the class, entirely, as an equal object: every
+    encoder command is thereby also a decode-direction check of the bytes the specification agrees on"""
+    from harness import rt
+    b = bytes(obj.compose())
+    if not PARSE_BACK:
+        return b.hex()
+    back = parse_back(cls or type(obj), b)
+    if not rt.same(back, obj):
+        raise RoundTripError('parse(compose(o)) != o')
+    return b.hex()
+
+
 def exn_name(e):
     if isinstance(e, RoundTripError):
         return 'RoundTripError'
@@ -351,7 +367,7 @@ def ch_enc(ver, rnd, sid, suites, comps, exts):
         fallback_scsv=0x5600 in codes,
         empty_renegotiation_info_scsv=0x00ff in codes,
     )
-    return hx(hello.compose())
+    return rt_hex(hello)
 
 
 def show_ch(h, n):
@@ -387,12 +403,12 @@ def sh_enc(ver, rnd, sid, suite, comp, exts):
         cipher_suite=_member_or_invalid(TlsCipherSuite, int(suite), 2),
         extensions=ext_objs,
     )
-    return hx(hello.compose())
+    return rt_hex(hello)
 
 
 def cert_enc(certs):
     from cryptoparser.tls.subprotocol import TlsHandshakeCertificate, TlsCertificates, TlsCertificate
-    return hx(TlsHandshakeCertificate(TlsCertificates([TlsCertificate(bytes.fromhex(c)) for c in ([] if certs == '-' else certs.split(','))])).compose())
+    return rt_hex(TlsHandshakeCertificate(TlsCertificates([TlsCertificate(bytes.fromhex(c)) for c in ([] if certs == '-' else certs.split(','))])))
 
 
 def certreq_enc(types, sa, cas):
@@ -404,7 +420,7 @@ def certreq_enc(types, sa, cas):
         ts.append(ms[0] if ms else c)
     algs = None if sa == '_' else [_member_or_invalid(TlsSignatureAndHashAlgorithm, c, 2) for c in _zs(sa)]
     names = [TlsDistinguishedName(list(bytes.fromhex(h))) for h in ([] if cas == '-' else cas.split(','))]
-    return hx(TlsHandshakeCertificateRequest(ts, names, algs).compose())
+    return rt_hex(TlsHandshakeCertificateRequest(ts, names, algs))
 
 
 def certreq_dec(w, h):
@@ -424,7 +440,7 @@ def certst_enc(ty, h):
     ms = [m for m in TlsCertificateStatusType if int(m) == int(ty)]
     if not ms:
         raise TypeError('not constructible')
-    return hx(TlsHandshakeCertificateStatus(ms[0], bytes.fromhex('' if h == '-' else h)).compose())
+    return rt_hex(TlsHandshakeCertificateStatus(ms[0], bytes.fromhex('' if h == '-' else h)))
 
 
 def certst_dec(h):
@@ -435,7 +451,7 @@ def certst_dec(h):
 
 def shd_enc():
     from cryptoparser.tls.subprotocol import TlsHandshakeServerHelloDone
-    return hx(TlsHandshakeServerHelloDone().compose())
+    return rt_hex(TlsHandshakeServerHelloDone())
 
 
 def rec_enc(ct, ver, frag):
@@ -444,12 +460,12 @@ def rec_enc(ct, ver, frag):
 
 def alert_enc(level, desc):
     from cryptoparser.tls.subprotocol import TlsAlertMessage
-    return hx(TlsAlertMessage(int(level), int(desc)).compose())
+    return rt_hex(TlsAlertMessage(int(level), int(desc)))
 
 
 def ccs_enc():
     from cryptoparser.tls.subprotocol import TlsChangeCipherSpecMessage
-    return hx(TlsChangeCipherSpecMessage().compose())
+    return rt_hex(TlsChangeCipherSpecMessage())
 
 
 def ext_enc(kind, arg):
@@ -490,7 +506,7 @@ def ext_enc(kind, arg):
         obj = ex.TlsExtensionRenegotiationInfo(ex.TlsRenegotiatedConnection(list(bytes.fromhex('' if arg == '-' else arg))))
     else:
         raise KeyError(kind)
-    return hx(bytes(obj.compose())[4:])
+    return rt_hex(obj)[8:]
 
 
 # ---- opportunistic TLS ------------------------------------------------------------------------------
@@ -504,7 +520,7 @@ def _cotp_cls(code):
 
 
 def cotp_enc(code, dst, src, h):
-    return hx(_cotp_cls(code)(src_ref=int(src), dst_ref=int(dst), user_data=bytes.fromhex('' if h == '-' else h)).compose())
+    return rt_hex(_cotp_cls(code)(src_ref=int(src), dst_ref=int(dst), user_data=bytes.fromhex('' if h == '-' else h)))
 
 
 def p_cotp(ty, h):
@@ -524,7 +540,7 @@ def rdp_neg_enc(ty, flags, protos):
     pr = [p for p in rdp.RDPProtocol if int(protos) & int(p)]
     if sum(int(p) for p in pr) != int(protos):
         raise TypeError('not constructible: unknown protocol bits')
-    return hx(cls(fl, pr).compose())
+    return rt_hex(cls(set(fl), set(pr)))
 
 
 def rdp_neg_dec(ty, h):
@@ -550,7 +566,7 @@ def mysql_ssl41(caps, mx, cs):
     csm = [m for m in mysql.MySQLCharacterSet if m.value.code == int(cs)]
     if not csm:
         raise TypeError('not constructible')
-    return hx(mysql.MySQLHandshakeSslRequest(set(cl), int(mx), csm[0]).compose())
+    return rt_hex(mysql.MySQLHandshakeSslRequest(set(cl), int(mx), csm[0]))
 
 
 def mysql_hs(ver, cid, a1, caps, cs, st, a2, pl):
@@ -577,7 +593,7 @@ def mysql_ssl320(caps, mx):
     cl = [c for c in mysql.MySQLCapability if int(caps) & int(c)]
     if sum(int(c) for c in cl) != int(caps) or int(caps) & int(mysql.MySQLCapability.CLIENT_PROTOCOL_41):
         raise TypeError('not constructible')
-    return hx(mysql.MySQLHandshakeSslRequest(set(cl), int(mx)).compose())
+    return rt_hex(mysql.MySQLHandshakeSslRequest(set(cl), int(mx)))
 
 
 def ovpn_ctl(op, sess, acks, remote, pid, h):
@@ -680,7 +696,7 @@ def kex_enc(cookie, lists, follows, reserved):
     langs = [[LanguageTag.parse_exact_size(bytes.fromhex(h)) for h in ([] if l == '-' else l.split(','))] for l in ls[8:10]]
     k = SshKeyExchangeInit(*args, languages_client_to_server=langs[0], languages_server_to_client=langs[1],
                            first_kex_packet_follows=int(follows), cookie=bytes.fromhex(cookie), reserved=int(reserved))
-    return hx(k.compose())
+    return rt_hex(k)
 
 
 def _show_vec(v):
@@ -854,22 +870,22 @@ def keytag_cmd(h):
 def ds_enc(kt, a, d, dg):
     from cryptodatahub.dnsrec.algorithm import DnsSecAlgorithm, DnsSecDigestType
     from cryptoparser.dnsrec.record import DnsRecordDs
-    return hx(DnsRecordDs(int(kt), _dns_enum(DnsSecAlgorithm, int(a)), _dns_enum(DnsSecDigestType, int(d)), bytes.fromhex('' if dg == '-' else dg)).compose())
+    return rt_hex(DnsRecordDs(int(kt), _dns_enum(DnsSecAlgorithm, int(a)), _dns_enum(DnsSecDigestType, int(d)), bytes.fromhex('' if dg == '-' else dg)))
 
 
 def mx_enc(pref, name):
     from cryptoparser.dnsrec.record import DnsRecordMx, DnsNameUncompressed
-    return hx(DnsRecordMx(int(pref), DnsNameUncompressed(_labels(name))).compose())
+    return rt_hex(DnsRecordMx(int(pref), DnsNameUncompressed(_labels(name))))
 
 
 def name_enc(name):
     from cryptoparser.dnsrec.record import DnsNameUncompressed
-    return hx(DnsNameUncompressed(_labels(name)).compose())
+    return rt_hex(DnsNameUncompressed(_labels(name)))
 
 
 def txt_enc(h):
     from cryptoparser.dnsrec.record import DnsRecordTxt
-    return hx(DnsRecordTxt(bytes.fromhex('' if h == '-' else h).decode('ascii')).compose())
+    return rt_hex(DnsRecordTxt(bytes.fromhex('' if h == '-' else h).decode('ascii')))
 
 
 def rrsig_enc(ty, alg, labels, ttl, ex, inc, kt, name, sig):
@@ -898,7 +914,7 @@ def dnskey_rsa_enc(flags, alg, e, m):
     from cryptoparser.dnsrec.record import DnsRecordDnskey, DnsSecFlag, DnsSecProtocol
     fl = [f for f in DnsSecFlag if int(flags) & int(f)]
     key = PublicKey.from_params(PublicKeyParamsRsa(public_exponent=int(e), modulus=int.from_bytes(bytes.fromhex(m), 'big')))
-    return hx(DnsRecordDnskey(fl, _dns_enum(DnsSecAlgorithm, int(alg)), key, DnsSecProtocol.V3).compose())
+    return rt_hex(DnsRecordDnskey(set(fl), _dns_enum(DnsSecAlgorithm, int(alg)), key, DnsSecProtocol.V3))
 
 
 def dnskey_ec_enc(flags, alg, x, y):
@@ -1067,7 +1083,7 @@ def reader_cmd(u, chunks):
 # ---- vector edit histories ---------------------------------------------------------------------------
 VEC_CLASSES = ['TlsSessionIdVector', 'TlsRenegotiatedConnection', 'TlsCipherSuiteVector', 'TlsCompressionMethodVector',
                'TlsCertificateStatusRequestResponderIdList', 'SshKexAlgorithmVector', 'TlsEllipticCurveVector',
-               'TlsClientCertificateTypeVector', 'TlsDistinguishedNameVector']
+               'TlsClientCertificateTypeVector', 'TlsDistinguishedNameVector', 'TlsProtocolNameList']
 
 
 def vec_item(cls_name, tag, size):
@@ -1090,6 +1106,11 @@ def vec_item(cls_name, tag, size):
     if cls_name == 'TlsDistinguishedNameVector':
         from cryptoparser.tls.subprotocol import TlsDistinguishedName
         return TlsDistinguishedName([tag % 256] * (size - 2)) if size >= 3 else None
+    if cls_name == 'TlsProtocolNameList':
+        # protocol names are encoded as a one-octet length and the name (RFC 7301 3.1): the members whose encoding has `size` octets
+        from cryptodatahub.tls.algorithm import TlsProtocolName
+        ms = sorted((m for m in TlsProtocolName if len(m.value.code.encode('utf-8')) + 1 == size), key=lambda m: m.name)
+        return ms[tag] if tag < len(ms) else None
     if cls_name == 'SshKexAlgorithmVector':
         return chr(97 + tag % 26) + 'x' * (size - 1) if size >= 1 else None
     raise KeyError(cls_name)
